@@ -42,6 +42,8 @@ TDown        == Ev("Down") /\ Adv1 /\ EnvQuiet /\ RelayDown
 TUp          == Ev("Up") /\ Adv1 /\ EnvQuiet /\ RelayUp
 TRefuse      == Ev("Refuse") /\ Adv1 /\ EnvQuiet /\ SetRefuse(TRUE)
 TAccept      == Ev("Accept") /\ Adv1 /\ EnvQuiet /\ SetRefuse(FALSE)
+THold        == Ev("Hold") /\ Adv1 /\ EnvQuiet /\ SetHold(TRUE)
+TRelease     == Ev("Release") /\ Adv1 /\ EnvQuiet /\ SetHold(FALSE)
 TStall       == Ev("Stall") /\ Adv1 /\ EnvQuiet /\ SetStalled(TRUE)
 TResume      == Ev("Resume") /\ Adv1 /\ EnvQuiet /\ SetStalled(FALSE)
 TAdv         == Ev("Adv") /\ Adv1 /\ Adv(R.d)
@@ -52,13 +54,16 @@ TLookup  == Ev("FlowLookup") /\ Adv1 /\ Lookup /\ K(lcur'.f) = RK /\ (R.hit <=> 
 TInsert  == Ev("FlowInsert") /\ Adv1 /\ InsertPipeEntry /\ K(lcur.f) = RK /\ (R.dns <=> lcur.f \in Dns)
 \* the destination joins the association of its source
 TAddPeer == Ev("AssocAddPeer") /\ Adv1 /\ K(lcur.f) = RK /\ R.new /\ AssocAddPeer /\ R.peers = Cardinality(assoc'[R.s])
-\* a new association (ok) or the server's refusal
-TAssocOpen == Ev("AssocOpen") /\ Adv1 /\ lpc = "open" /\ K(lcur.f) = RK
-              /\ \/ R.ok /\ AssocOpen
-                 \/ ~R.ok /\ AssocOpenErr
-TNewConn == Ev("NewConn") /\ Adv1 /\ K(lcur.f) = RK
-            /\ \/ R.ok /\ NewConnOk
-               \/ ~R.ok /\ NewConnErr
+\* the handshake of a new association starts (the await), then: the association (ok), the
+\* server's refusal, or the future dropped by the expiry tick - both of the latter are reported
+\* by the hook's drop guard as ok = false
+TAssocOpenStart == Ev("AssocOpenStart") /\ Adv1 /\ K(lcur.f) = RK /\ AssocOpenStart
+TAssocOpen == Ev("AssocOpen") /\ Adv1 /\ lpc = "opening" /\ K(lcur.f) = RK
+              /\ \/ R.ok /\ AssocOpenDone
+                 \/ ~R.ok /\ (AssocOpenErr \/ OpenCancelled)
+TNewConn == Ev("NewConn") /\ Adv1
+            /\ \/ R.ok /\ K(lcur.f) = RK /\ NewConnOk
+               \/ ~R.ok /\ K(lcur.f) = RK /\ (NewConnErr \/ NewConnCancelled)
 TOutgoing == Ev("Outgoing") /\ Adv1 /\ RegisterOutgoing /\ K(lcur.f) = RK /\ R.pend = pipeTab'[RK].pend
 \* DatagramSink::write found the association (ok) - a miss has no action: the flow table said the flow lives
 TS5Write == Ev("S5Write") /\ Adv1 /\ K(lcur.f) = RK /\ R.ok /\ S5Lookup
@@ -118,7 +123,7 @@ TNext == TStart \/ TBegin \/ TObs \/ TClientDgram \/ TPeerReply \/ TPeerGot \/ T
          \/ TStall \/ TResume \/ TAdv \/ TClose \/ TRet
          \/ TLookup \/ TInsert \/ TAddPeer \/ TAssocOpen \/ TNewConn \/ TOutgoing \/ TS5Write \/ TSendOk \/ TSendErr \/ TMetric
          \/ TClientGot \/ TIncoming \/ TFlowRemove \/ TPeerClosed \/ TAssocRelease \/ TAssocError
-         \/ TTick \/ TTickEnd \/ TIcmp
+         \/ TTick \/ TTickEnd \/ TIcmp \/ THold \/ TRelease \/ TAssocOpenStart
 
 TInit == l = 1 /\ Init
 TSpec == TInit /\ [][TNext]_tvars
